@@ -388,7 +388,7 @@ func init() {
 		Rule: "seeded generation of 1-3 authenticated attacker sessions next to a well-behaved victim session (paced cat of 120 lines spanning the attack) on one dserver; each attacker " +
 			"writes 1-6 byte strings in chunks down to 1 byte: every command word x option lists (valid, 'k', 'k=', '=v', base64% garbage, huge and negative ints) x 0-5 arguments in " +
 			"a correct envelope; envelope mutations (version, base64 marker, invalid base64, empty commands); map commands with ~60 malformed queries plus token-level mutations " +
-			"(lone quotes/back-quotes, unbalanced parentheses, keywords without operands), non-positive intervals (reduced step cap: the unchanged server spins; regex garbage; raw random bytes; short payloads probing argument counts. " +
+			"(lone quotes/back-quotes, unbalanced parentheses, keywords without operands), non-positive intervals (reduced step cap: the unchanged server spins); regex garbage; raw random bytes; short payloads probing argument counts. " +
 			"Oracle: no panic reaches the top of any server goroutine, the victim receives all lines and the close handshake, each attacker that sent a terminated command gets a " +
 			"message or is closed within 30 simulated seconds. distinct = (payload set, schedule hash); every run is non-trivial",
 		Real: []string{"internal/server (SSH server)", "internal/server/handlers (Write re-assembly, handleCommand, handleProtocolVersion, handleBase64, readCommand, mapCommand, health handler)",
